@@ -346,3 +346,50 @@ VARIANTS += [
     dict(prop="C10", name="aad-site-via-as-str", benign=True,
          edits=[dict(file=HIF, find="HELPER_ORIGIN.as_bytes());\n        r.extend_from_slice(self.conversion_site_domain.as_bytes());", replace="HELPER_ORIGIN.as_bytes());\n        r.extend_from_slice(self.conversion_site_domain.as_str().as_bytes());")]),
 ]
+
+SIF = "ipa-core/src/helpers/transport/stream/input.rs"
+SBF = "ipa-core/src/helpers/transport/stream/buffered.rs"
+VARIANTS += [
+    # ---------------- C17 ----------------
+    dict(prop="C17", name="gather-compare-flipped", expect="TOTAL|BufDeque::read_bytes:split",
+         edits=[dict(file=SIF, find="                if self.buffered[0].len() > remaining_bytes {", replace="                if self.buffered[0].len() < remaining_bytes {")]),
+    dict(prop="C17", name="gather-compare-ge", benign=True,
+         edits=[dict(file=SIF, find="                if self.buffered[0].len() > remaining_bytes {", replace="                if self.buffered[0].len() >= remaining_bytes {")]),
+    dict(prop="C17", name="avail-le", expect="AVAIL|read_bytes:none-iff-short",
+         edits=[dict(file=SIF, find="        if len == 0 || self.buffered_size < len {", replace="        if len == 0 || self.buffered_size <= len {")]),
+    dict(prop="C17", name="direct-path-forgets-count", expect="COUNT|read_bytes:direct:one-decrement",
+         edits=[dict(file=SIF, find="            self.buffered_size -= len;\n            let res = self.buffered[0].split_to(len);", replace="            let res = self.buffered[0].split_to(len);")]),
+    dict(prop="C17", name="direct-path-count-after-split", benign=True,
+         edits=[dict(file=SIF, find="            self.buffered_size -= len;\n            let res = self.buffered[0].split_to(len);", replace="            let res = self.buffered[0].split_to(len);\n            self.buffered_size -= len;")]),
+    dict(prop="C17", name="empty-front-not-popped", benign=True,
+         edits=[dict(file=SIF, find="            if self.buffered[0].is_empty() {\n                self.buffered.pop_front();\n            }\n", replace="")]),
+    dict(prop="C17", name="front-popped-when-not-empty", expect="LOSS|read_bytes:pop_front",
+         edits=[dict(file=SIF, find="            if self.buffered[0].is_empty() {\n                self.buffered.pop_front();\n            }\n", replace="            if self.buffered[0].len() < len {\n                self.buffered.pop_front();\n            }\n")]),
+    dict(prop="C17", name="extend-push-front", expect="FIFO|extend:push_front",
+         edits=[dict(file=SIF, find="                self.buffered.push_back(bytes);", replace="                self.buffered.push_front(bytes);")]),
+    dict(prop="C17", name="extend-leftover-threshold", expect="EOF|extend:finished-only-if-empty",
+         edits=[dict(file=SIF, find="            None if self.buffered_size > 0 => ExtendResult::Error(", replace="            None if self.buffered_size > 1 => ExtendResult::Error(")]),
+    dict(prop="C17", name="extend-count-off", expect="COUNT|extend:push#0:adds-its-length",
+         edits=[dict(file=SIF, find="                self.buffered_size += bytes.len();\n                self.buffered.push_back(bytes);", replace="                self.buffered_size += bytes.len().max(1);\n                self.buffered.push_back(bytes);")]),
+    dict(prop="C17", name="pending-length-at-eof-ignored", expect="EOF|LengthDelimitedStream:pending-length-is-error",
+         edits=[dict(file=SIF, find="                ExtendResult::Finished if this.pending_len.is_some() => {", replace="                ExtendResult::Finished if this.pending_len.is_some() && available_len == usize::MAX => {")]),
+    dict(prop="C17", name="pending-cleared-early", expect="STATE|cleared-only-after-body-read",
+         edits=[dict(file=SIF, find="                if let Some(bytes) = bytes {\n                    *this.pending_len = None;", replace="                *this.pending_len = None;\n                if let Some(bytes) = bytes {")]),
+    dict(prop="C17", name="batch-count-zero", expect="PROGRESS|Batch:count>=1",
+         edits=[dict(file=SIF, find="        let count = max(1, buf.contiguous_len() / T::Size::USIZE);", replace="        let count = max(0, buf.contiguous_len() / T::Size::USIZE);")]),
+    dict(prop="C17", name="records-stream-pending-after-data", expect="PENDING|<RecordsStream<T, S, M> as futures_util::Stream>::poll_next",
+         edits=[dict(file=SIF, find="                ExtendResult::Error(err) => return Poll::Ready(Some(Err(err.into()))),\n                ExtendResult::Ok => (),", replace="                ExtendResult::Error(err) => return Poll::Ready(Some(Err(err.into()))),\n                ExtendResult::Ok => return Poll::Pending,")]),
+    dict(prop="C17", name="records-stream-finished-on-error", expect="EOF|RecordsStream:error-arm-yields-err",
+         edits=[dict(file=SIF, find="                ExtendResult::Error(err) => return Poll::Ready(Some(Err(err.into()))),\n                ExtendResult::Ok => (),", replace="                ExtendResult::Error(err) => {\n                    tracing::warn!(\"input stream failed: {err}\");\n                    return Poll::Ready(None);\n                }\n                ExtendResult::Ok => (),")]),
+    dict(prop="C17", name="buffered-drops-tail", expect="EOF|BufferedBytesStream",
+         edits=[dict(file=SBF, find="                    let next = if this.buffer.is_empty() {\n                        None\n                    } else {\n                        Some(Ok(Bytes::from(take_next(this.buffer))))\n                    };", replace="                    let next = if this.buffer.len() < *this.sz {\n                        None\n                    } else {\n                        Some(Ok(Bytes::from(take_next(this.buffer))))\n                    };")]),
+    dict(prop="C17", name="try-read-wrong-size", expect="PROGRESS|try_read:reads-size-bytes",
+         edits=[dict(file=SIF, find="    fn try_read<T: Serializable>(&mut self) -> Option<Result<T, T::DeserializationError>> {\n        self.read_bytes(T::Size::USIZE)", replace="    fn try_read<T: Serializable>(&mut self) -> Option<Result<T, T::DeserializationError>> {\n        self.read_bytes(T::Size::USIZE.next_power_of_two())")]),
+    dict(prop="C17", name="front-via-front-unwrap", benign=True,
+         edits=[dict(file=SIF, find="        } else if self.buffered[0].len() >= len {", replace="        } else if self.buffered.front().unwrap().len() >= len {")]),
+]
+
+VARIANTS += [
+    dict(prop="C17", name="error-discards-held-records", expect="ITEMS|held-records-then-Err",
+         edits=[dict(file=SIF, find="                            if items.is_empty() {\n                                return Poll::Ready(Some(Err(err)));\n                            }\n                            *this.pending_err = Some(err);\n                            return Poll::Ready(Some(Ok(items)));", replace="                            return Poll::Ready(Some(Err(err)));")]),
+]
